@@ -37,6 +37,12 @@ def decode_length(ctx, rep):
         rep.fail("R4.1", "anchors", "Mode::decode_length not found")
         return
     rep.fn(b.name)
+    # private helpers of the same module (size-byte scaling, error constructors, ...) are analysed in place
+    from mirq import inline_calls
+    ib = inline_calls(b, lambda d: d.startswith("insim::net::mode::") and not d.endswith("::max_length") and "{closure" not in d, depth=3)
+    if ib is not b:
+        rep.notes.append("R4.1: private helper(s) of insim::net::mode inlined into decode_length")
+        b = ib
     rep.check("R4.1", "src-shared", b.locals[2]["ty"].startswith("&") and not b.locals[2]["ty"].startswith("&mut") and "mut " not in b.locals[2]["ty"][:14],
               "decode_length must take the buffer by shared reference (found %s)" % b.locals[2]["ty"], b.loc(), sample={"src_type": b.locals[2]["ty"]})
     summ = summaries(ctx)
@@ -57,24 +63,17 @@ def decode_length(ctx, rep):
                       b.loc(st["line"]), sample={"mode": vn, "n_interval": list(iv) if iv else None})
             rep.check("R4.1", "%s:upper-bound" % vn, iv is not None and hi is not None and iv[1] <= hi,
                       "Mode::%s: announced length up to %s exceeds the mode maximum %s" % (vn, iv[1] if iv else "?", hi), b.loc(st["line"]))
-            # n's definition on this variant's path, compared bit by bit with first_byte << (0 | 2) computed in usize
+            # n's definition on this variant's path (taken from the accepting row of the path-sensitive decision table, so that
+            # helper calls and multiply-assigned locals are resolved), compared bit by bit with first_byte << (0 | 2) in usize
             import bits
-            o = b.origin(st["rv"]["ops"][0])
             exprs = []
-            if o[0] == "phi":
-                for d in b.defs().get(o[1], []):
-                    if d[0] == "stmt" and d[1] in an.reachable():
-                        rv = d[3]["rv"]
-                        if rv["k"] == "cast":
-                            exprs.append(("cast", rv["kind"], rv["from"], rv["to"], b.origin(rv["x"])))
-                        elif rv["k"] == "use":
-                            exprs.append(b.origin(rv["x"]))
-                        elif rv["k"] == "bin":
-                            exprs.append(("bin", rv["op"], b.origin(rv["l"]), b.origin(rv["r"]), rv.get("lty")))
-                        else:
-                            exprs.append(("rv", rv["k"]))
-            else:
-                exprs = [o]
+            for r in rows:
+                if r[1][1] == "Ok" and r[1][2] and r[1][2][0].startswith("Some{") and ("discr(*arg1)", "eq", (vi,)) in [(c[1], c[2], c[3]) for c in r[0]]:
+                    payload = r[1][3][0]
+                    if payload[0] == "agg" and payload[2]:
+                        exprs.append(payload[2][0])
+            if not exprs:
+                exprs = [b.origin(st["rv"]["ops"][0])]
 
             def leaf(x):
                 # the first byte of the buffer: `*src.first()?` / src[0]
@@ -94,35 +93,106 @@ def decode_length(ctx, rep):
             expect = [("f", "first", i - shift) if 0 <= i - shift < 8 else 0 for i in range(64)]
             got_bits = [bits.evaluate(e, 64, leaf) for e in exprs]
             okv = len(got_bits) == 1 and got_bits[0] == expect
-            rep.check("R4.1", "%s:value" % vn, okv, "Mode::%s: the announced length must be the first byte x %d computed without losing bits; %s gives %s" % (vn, 1 << shift, [fmt_origin(e) for e in exprs], [str(x) for x in (got_bits[0][:12] if got_bits else [])]),
+            rep.check("R4.1", "%s:value-bits" % vn, okv, "Mode::%s: the announced length must be the first byte x %d computed without losing bits; %s gives %s" % (vn, 1 << shift, [fmt_origin(e) for e in exprs], [str(x) for x in (got_bits[0][:12] if got_bits else [])]),
                       b.loc(st["line"]), sample={"mode": vn, "definition": [fmt_origin(e) for e in exprs]})
-        # the accepting row demands src.len() >= n (n = the very value returned in Some)
-        vrows = [r for r in rows if r[1][1] == "Ok" and r[1][2] and r[1][2][0].startswith("Some{") and ("discr(*arg1)", "eq", (vi,)) in [(c[1], c[2], c[3]) for c in r[0]]]
-        okc = False
-
-        def is_src_len(o):
-            return o[0] == "call" and re.search(r"BytesMut::len$", o[1] or "") is not None and strip_refs(o[3][0]) == ("arg", 2)
-        for r in vrows:
-            payload = r[1][3][0]
-            nval = payload[2][0] if payload[0] == "agg" and payload[2] else None
-            for c in r[0]:
-                o = c[4]
-                if o[0] != "bin" or nval is None:
-                    continue
-                op, l, rr = o[1], o[2], o[3]
-                truth = (c[2] == "ne" and c[3] == (0,)) or (c[2] == "eq" and c[3] == (1,))
-                if op == "Lt" and is_src_len(l) and rr == nval and not truth:
-                    okc = True
-                if op == "Gt" and is_src_len(rr) and l == nval and not truth:
-                    okc = True
-                if op == "Ge" and is_src_len(l) and rr == nval and truth:
-                    okc = True
-                if op == "Le" and is_src_len(rr) and l == nval and truth:
-                    okc = True
-        rep.check("R4.1", "%s:whole-frame-buffered" % vn, okc and len(vrows) == 1,
-                  "Mode::%s: `Some(n)` must be guarded by `src.len() >= n` for the n it returns (rows %s)" % (vn, [[c[1] for c in r[0]] for r in vrows]), b.loc(),
-                  sample={"mode": vn, "conditions": [[c[1], c[2]] for r in vrows for c in r[0]]})
+        contract(ctx, rep, b, rows, vi, vn, ml.get(vi))
     rep.floor("R4.1", 9)
+
+
+def contract(ctx, rep, b, rows, vi, vn, hi):
+    """decode_length as a finite table, evaluated for every first byte and a set of buffer lengths around every boundary:
+    Some(n) only with n = byte x scale, 4 <= n <= max and n bytes buffered; a complete valid frame is always announced
+    (progress); an incomplete valid frame is `None`, never an error."""
+    import tabeval
+    scale = 1 if hi == 255 else 4
+    tables = {}
+
+    def call(d, rd, args, ev):
+        name = rd or d
+        if re.search(r"(BytesMut|<impl \[T\]>|Bytes)::len$", d) and strip_refs(strip_to_src(args[0])) == ("arg", 2):
+            return ev.L
+        if re.search(r"(BytesMut|<impl \[T\]>|Bytes)::is_empty$", d) and strip_refs(strip_to_src(args[0])) == ("arg", 2):
+            return 1 if ev.L == 0 else 0
+        if re.search(r"<impl \[T\]>::first$", d) and strip_refs(strip_to_src(args[0])) == ("arg", 2):
+            return ("opt", ev.L >= 1, ev.f)
+        if re.search(r"<impl \[T\]>::get$", d) and strip_refs(strip_to_src(args[0])) == ("arg", 2) and len(args) > 1 and args[1][0] == "const" and args[1][1] == 0:
+            return ("opt", ev.L >= 1, ev.f)
+        if re.search(r"checked_(rem|div|mul|add|sub)$", d) and len(args) == 2:
+            a, c = ev.ev(args[0]), ev.ev(args[1])
+            op = d.rsplit("_", 1)[1]
+            if op in ("rem", "div") and c == 0:
+                return ("opt", False, None)
+            r = {"rem": lambda: a % c, "div": lambda: a // c, "mul": lambda: a * c, "add": lambda: a + c, "sub": lambda: a - c}[op]()
+            return ("opt", 0 <= r < 2 ** 64, r)
+        if name.startswith("insim::net::mode::"):
+            if name not in tables:
+                tables[name] = absint.const_table_summary(ctx.mir, name)
+            tb = tables[name]
+            if tb is not None:
+                return tb.get(vi, tb.get(None))
+        return None
+
+    def leaf(o):
+        if o[0] == "discr" and strip_refs(o[1]) == ("arg", 1):
+            return vi
+        if o[0] == "index" and strip_refs(strip_to_src(o[1])) == ("arg", 2) and o[2][0] == "const" and o[2][1] == 0:
+            return ev.f
+        return None
+    ev = tabeval.Evaluator(leaf, call)
+    bad = {"value": None, "whole-frame-buffered": None, "range": None, "progress": None, "incomplete-is-none": None, "deterministic": None}
+    undecided = None
+    n_eval = 0
+    for f in range(256):
+        n_true = f * scale
+        valid = hi is not None and 4 <= n_true <= hi
+        lens = sorted({0, 1, 2, 3, 4, 5, 7, 8, 255, 256, 1019, 1020, 1021, 1024, 4096, max(n_true - 1, 0), n_true, n_true + 1})
+        for L in lens:
+            ev.f, ev.L = f, L
+            try:
+                m = ev.matching_rows(rows)
+            except tabeval.Unknown as e:
+                undecided = e.what
+                break
+            n_eval += 1
+            wit = "first byte %d, %d byte(s) buffered" % (f, L)
+            if len(m) > 1 and len({(r[1][1], r[1][2]) for r in m}) > 1:
+                bad["deterministic"] = bad["deterministic"] or "%s: %d different rows apply" % (wit, len(m))
+                continue
+            if not m:
+                if L >= 1:
+                    bad["progress"] = bad["progress"] or "%s: every path traps (panic)" % wit
+                continue
+            r = m[0][1]
+            some = r[1] == "Ok" and r[2] and r[2][0].startswith("Some{")
+            none = r[1] == "Ok" and r[2] and r[2][0].startswith("None")
+            if some:
+                try:
+                    n = ev.ev(r[3][0][2][0])
+                except (tabeval.Unknown, tabeval.Panic) as e:
+                    undecided = "announced value: %s" % e
+                    break
+                if n != n_true:
+                    bad["value"] = bad["value"] or "%s: announces %d, the frame is %d bytes" % (wit, n, n_true)
+                if hi is not None and not (4 <= n <= hi):
+                    bad["range"] = bad["range"] or "%s: announces %d outside 4..=%d" % (wit, n, hi)
+                if L < n:
+                    bad["whole-frame-buffered"] = bad["whole-frame-buffered"] or "%s: announces %d bytes although only %d are buffered" % (wit, n, L)
+            elif valid and L >= n_true:
+                bad["progress"] = bad["progress"] or "%s: a complete valid frame of %d bytes is not announced (%s) - the decoder would never get past it" % (wit, n_true, r[1] + " " + "".join(r[2][:1]))
+            elif valid and 4 <= L < n_true and not none:
+                bad["incomplete-is-none"] = bad["incomplete-is-none"] or "%s: an incomplete valid frame must be `Ok(None)` (found %s)" % (wit, r[1])
+        if undecided:
+            break
+    if undecided:
+        rep.fail("R4.1", "%s:table" % vn, "Mode::%s: decode_length's decision table could not be evaluated (%s)" % (vn, undecided), b.loc())
+        return
+    rep.check("R4.1", "%s:value" % vn, bad["value"] is None and bad["range"] is None,
+              "Mode::%s: the announced length must be the first byte x %d, within 4..=%s: %s" % (vn, scale, hi, bad["value"] or bad["range"]), b.loc(),
+              sample={"mode": vn, "evaluated": n_eval, "domain": "256 first bytes x buffer lengths around every boundary"})
+    rep.check("R4.1", "%s:whole-frame-buffered" % vn, bad["whole-frame-buffered"] is None,
+              "Mode::%s: `Some(n)` must imply that n bytes are buffered: %s" % (vn, bad["whole-frame-buffered"]), b.loc(), sample={"mode": vn, "evaluated": n_eval})
+    rep.check("R4.1", "%s:progress" % vn, bad["progress"] is None and bad["deterministic"] is None and bad["incomplete-is-none"] is None,
+              "Mode::%s: %s" % (vn, bad["progress"] or bad["deterministic"] or bad["incomplete-is-none"]), b.loc(), sample={"mode": vn, "evaluated": n_eval})
 
 
 def strip_to_src(o):
